@@ -18,6 +18,7 @@ def verify_function(key: str, budget_ms: int = 8000) -> dict:
         proj = _project()
         c = proj.contracts[key]
         out["ast_hash"] = proj.function_hash(key)
+        out["shape"] = proj.function_shape(key)
         out["props"] = c.get("props", [])
         vc = FunctionVC(proj, key, c)
         obs = vc.run()
